@@ -1,5 +1,6 @@
 import Driver.Common
 import AslModel.Str
+import AslModel.Csv
 /-! Model driver for C03 (`asl::String`).  State: one `String` (`cur`) as `Option Rep`
 (`none` = the model left the storage block: printed as `oob`, which the implementation never prints). -/
 open Driver AslModel.Str
@@ -94,6 +95,66 @@ def parseArg (s : String) : Option Arg :=
   | ["i", v] => (int? v).map Arg.i
   | _ => none
 
+/-! ### floating point (K only): libc `strtod`/`atof` as exact correct rounding; the last step of `myatof`
+(`double(y1) * pow(10.0, exp) * m`) in hardware doubles through Lean's `Float` (same libm `pow`) -/
+
+/-- correctly rounded `±m · 10^e` as IEEE-754 binary64 bits (round half to even, subnormals, overflow to infinity) -/
+def decToBits (neg : Bool) (m : Nat) (e : Int) : UInt64 :=
+  let sign : UInt64 := if neg then (1 : UInt64) <<< 63 else 0
+  if m = 0 then sign else
+  let N0 := if e ≥ 0 then m * 10 ^ e.toNat else m
+  let D0 := if e ≥ 0 then 1 else 10 ^ (-e).toNat
+  let q (k : Int) : Nat × Nat × Nat :=
+    let N := if k < 0 then N0 * 2 ^ (-k).toNat else N0
+    let D := if k < 0 then D0 else D0 * 2 ^ k.toNat
+    (N / D, N % D, D)
+  let k0 : Int := (N0.log2 : Int) - (D0.log2 : Int) - 52
+  let k := if (q k0).1 ≥ 2 ^ 53 then k0 + 1 else if (q k0).1 < 2 ^ 52 then k0 - 1 else k0
+  let k := if k < -1074 then -1074 else k
+  let (qq, rr, dd) := q k
+  let qq := if 2 * rr > dd ∨ (2 * rr = dd ∧ qq % 2 = 1) then qq + 1 else qq
+  let (qq, k) := if qq ≥ 2 ^ 53 then (qq / 2, k + 1) else (qq, k)
+  if k + 1075 ≥ 2047 then sign ||| ((0x7FF : UInt64) <<< 52)
+  else if qq < 2 ^ 52 then sign ||| qq.toUInt64
+  else sign ||| ((k + 1075).toNat.toUInt64 <<< 52) ||| (qq - 2 ^ 52).toUInt64
+
+def isDig (c : UInt8) : Bool := 48 ≤ c && c ≤ 57
+def natOfDigits (d : Bytes) : Nat := d.foldl (fun a c => 10 * a + (c.toNat - 48)) 0
+
+/-- libc `strtod` on decimal texts: blanks, sign, digits[.digits] | .digits, optional exponent with at least one digit;
+    anything else ends the number (no inf/nan/hex forms: the generator does not produce them) -/
+def strtodBits (s0 : Bytes) : UInt64 :=
+  let s := s0.dropWhile cIsSpace
+  let (neg, s) := match s with | 45 :: t => (true, t) | 43 :: t => (false, t) | _ => (false, s)
+  let d1 := s.takeWhile isDig
+  let s1 := s.dropWhile isDig
+  let (d2, s2) := match s1 with
+    | 46 :: t => (t.takeWhile isDig, t.dropWhile isDig)
+    | _ => ([], s1)
+  if d1.isEmpty && d2.isEmpty then 0 else
+  let ex : Int := match s2 with
+    | c :: t => if c == 101 || c == 69 then
+        let (eneg, u) := match t with | 45 :: v => (true, v) | 43 :: v => (false, v) | _ => (false, t)
+        let ed := u.takeWhile isDig
+        if ed.isEmpty then 0 else (if eneg then -(natOfDigits ed : Int) else natOfDigits ed)
+      else 0
+    | [] => 0
+  decToBits neg (natOfDigits (d1 ++ d2)) (ex - d2.length)
+
+/-- `myatof(s)`: mantissa/exponent as in `AslModel.Csv.atofDec` (shared with C18), then the three floating-point
+    operations of the code -/
+def myatofFloat (s : Bytes) : Float :=
+  let d := AslModel.Csv.atofDec s
+  let e := wrap32 d.exp
+  let y1 := Float.ofInt (wrap64 d.mant)
+  -- `if (exp < -300) y = double(y1) * pow(10.0, exp + 300) * 1e-300; else y = double(y1) * pow(10.0, exp);`
+  let y := if e < -300 then y1 * Float.pow 10.0 (Float.ofInt (e + 300)) * Float.ofBits 0x01a56e1fc2f8f359
+           else y1 * Float.pow 10.0 (Float.ofInt e)
+  y * (if d.neg then -1.0 else 1.0)
+
+def hex64 (x : UInt64) : String := String.ofList ((List.range 16).map fun i => hexDigit ((x.toNat >>> (60 - 4 * i)) % 16))
+def hex32 (x : UInt32) : String := String.ofList ((List.range 8).map fun i => hexDigit ((x.toNat >>> (28 - 4 * i)) % 16))
+
 def sgn (x : Int) : Int := if x < 0 then -1 else if x > 0 then 1 else 0
 
 /-- mutate `cur` -/
@@ -112,6 +173,10 @@ def step (st : St) (ts : List String) : St × String :=
     | some b => let r := Rep.ofBytes b; (r, showO r) | none => (st, "bad-op")
   | ["newc", h] => match unhex h with
     | some b => let r := Rep.ofCStr b; (r, showO r) | none => (st, "bad-op")
+  | ["newarr", h] => match unhex h with          -- String(const Array<char>&)
+    | some b => let r := Rep.ofArray b; (r, showO r) | none => (st, "bad-op")
+  | ["newbytes", h] => match unhex h with        -- String(const ByteArray&)
+    | some b => let r := Rep.ofArray b; (r, showO r) | none => (st, "bad-op")
   | ["get"] => qry st showRep
   | ["copy"] => qry st fun r => showO r.copy
   -- in-place mutations
@@ -182,9 +247,9 @@ def step (st : St) (ts : List String) : St × String :=
     | some c => qry st fun r => b2s (r.len > 0 && r.buf.getD (r.len - 1) 0 == c) | none => (st, "bad-op")
   | ["cmp", h] => match unhex h with
     | some p => qry st fun r =>
-        let c := strcmp r.view p
-        let eq := r.len == p.length && r.toList == p        -- `_len != s._len ? false : !memcmp`
-        s!"{c} {b2s eq} {b2s (!eq)} {b2s (c < 0)} {b2s (c == 0)}"
+        match Rep.ofBytes p with
+        | some o => s!"{r.compare o} {b2s (r.eq o)} {b2s (r.ne o)} {b2s (r.lt o)} {b2s (r.eqCStr p)}"
+        | none => "oob"
     | none => (st, "bad-op")
   | ["eqc", c] => match byte? c with
     | some c => qry st fun r => b2s (r.len == 1 && r.buf.getD 0 0 == c) | none => (st, "bad-op")
@@ -199,7 +264,7 @@ def step (st : St) (ts : List String) : St × String :=
     | _, _ => (st, "bad-op")
   | ["substr", i, n] => match int? i, int? n with
     | some i, some n => qry st fun r =>
-        if n < 0 ∨ i < -(r.len : Int) then "err range" else showO (r.substr i n.toNat)
+        if n < 0 ∨ i < -(r.len : Int) ∨ n > 2147483647 ∨ i > 2147483647 then "err range" else showO (r.substr i n)
     | _, _ => (st, "bad-op")
   | ["trimmed"] => qry st fun r => showO r.trimmed
   | ["concat", h] => match unhex h with
@@ -216,7 +281,7 @@ def step (st : St) (ts : List String) : St × String :=
         showO ((Rep.ofBytes sep).bind fun sp => (r.split sep).bind fun l => Rep.join sp l)
     | none => (st, "bad-op")
   | ["splitws"] => qry st fun r =>
-      showList ((splitWs r.view).mapM fun p => Rep.ofBytes p)
+      showList r.splitWs
   | "join" :: h :: ps => match unhex h, ps.mapM unhex with
     | some sep, some l =>
       (st, showO ((Rep.ofBytes sep).bind fun sp => (l.mapM Rep.ofBytes).bind fun rs => Rep.join sp rs))
@@ -250,8 +315,21 @@ def step (st : St) (ts : List String) : St × String :=
   | ["bool", b] => (st, showO (Rep.ofBool (b == "1")))
   | ["ofchar", c] => match byte? c with
     | some c => (st, showO (Rep.ofChar c)) | none => (st, "bad-op")
-  | ["repeat", c, n] => match byte? c, nat? n with
+  | ["repeat", c, n] => match byte? c, int? n with
     | some c, some n => (st, showO (Rep.repeatChar c n)) | _, _ => (st, "bad-op")
+  -- floating point
+  | ["dtoa", _, h] => match unhex h with
+    | some text => (st, match Rep.ofDouble text with
+      | some r => s!"{showRep r} D={hex64 (strtodBits r.view)} M={hex64 (myatofFloat r.view).toBits}" | none => "oob")
+    | none => (st, "bad-op")
+  | ["ftoa", _, h] => match unhex h with
+    | some text => (st, match Rep.ofFloat text with
+      | some r => s!"{showRep r} F={hex32 (myatofFloat r.view).toFloat32.toBits}" | none => "oob")
+    | none => (st, "bad-op")
+  | ["todouble", h] => match unhex h with
+    | some b => (st, hex64 (strtodBits b)) | none => (st, "bad-op")
+  | ["matof", h] => match unhex h with
+    | some b => (st, s!"{hex64 (myatofFloat b).toBits} {hex32 (myatofFloat b).toFloat32.toBits}") | none => (st, "bad-op")
   -- printf-style constructors
   | "fmt" :: n0 :: f :: args => match nat? n0, unhex f, args.mapM parseArg with
     | some n0, some f, some as => match fmtRun f as with
